@@ -1,0 +1,37 @@
+//go:build verif
+
+/*
+   Copyright 2020 The Compose Specification Authors.
+
+   Licensed under the Apache License, Version 2.0 (the "License");
+   you may not use this file except in compliance with the License.
+   You may obtain a copy of the License at
+
+       http://www.apache.org/licenses/LICENSE-2.0
+
+   Unless required by applicable law or agreed to in writing, software
+   distributed under the License is distributed on an "AS IS" BASIS,
+   WITHOUT WARRANTIES OR CONDITIONS OF ANY KIND, either express or implied.
+   See the License for the specific language governing permissions and
+   limitations under the License.
+*/
+
+package loader
+
+// Verification hooks for property C06 (include): the options an included project is loaded with start as
+// Options.clone(); the clone and the unexported fields are not reachable from outside the package.
+
+// VerifC06Clone is Options.clone().
+func VerifC06Clone(o *Options) *Options { return o.clone() }
+
+// VerifC06SetUnexported sets the unexported option fields.
+func VerifC06SetUnexported(o *Options, discardEnvFiles bool, projectName string, imperativelySet bool) {
+	o.discardEnvFiles = discardEnvFiles
+	o.projectName = projectName
+	o.projectNameImperativelySet = imperativelySet
+}
+
+// VerifC06Unexported reads the unexported option fields.
+func VerifC06Unexported(o *Options) (discardEnvFiles bool, projectName string, imperativelySet bool) {
+	return o.discardEnvFiles, o.projectName, o.projectNameImperativelySet
+}
